@@ -222,14 +222,15 @@ RmwVal(k, old, v) == CASE k = "swap" -> v
                        [] k = "min"  -> IF old <= v THEN old ELSE v
 
 \* read-modify-write at position i (read mo[x][i], insert right after it)
-RmwAt(t, me, x, i, newval, ord) ==
+RmwAtR(t, me, x, i, newval, ord, ret) ==
   LET me1 == ReadMsg(me, x, i, EffAcq(ord)) IN
   /\ WriteMsg(t, me1, x, newval, EffRel(ord), i, mview[mo[x][i].id])
   /\ glued' = glued \cup {<<t, pc[t]>>}
   /\ ash' = [ash EXCEPT ![x].sto[t] = Clk(me, t), ![x].ld[t] = Clk(me, t)]
-  /\ Ret(t, mo[x][i].val)
+  /\ (IF ret THEN Ret(t, mo[x][i].val) ELSE NoRet)
   /\ Adv(t) /\ NoRace
   /\ UNCHANGED <<scv, ob, sub, st, cells>>
+RmwAt(t, me, x, i, newval, ord) == RmwAtR(t, me, x, i, newval, ord, TRUE)
 
 Rmw(t, ins, me) ==
   LET x == ins.o IN
@@ -632,6 +633,18 @@ TlWith(t, ins, me) ==
   /\ ob' = [ob EXCEPT !.tl[t][k] = IF c = -1 THEN 1 ELSE c + 1,
                       !.tli[k] = IF c = -1 THEN @ + 1 ELSE @]
   /\ Plain(t, me) /\ Ret(t, IF c = -1 THEN 0 ELSE c) /\ UNCHANGED st
+\* the destructor of this thread's value of key ins.o, run when the thread finishes: part of the thread, i.e. BEFORE the
+\* thread counts as finished for JoinHandle::join (std: thread-locals are destroyed before the thread terminates).  The
+\* interpreter's value does one SeqCst fetch_add(1) on the atomic tl0c / tl1c (if the program declares it) - an effect the
+\* joining thread must see.  `tlexit k` is written as the last instruction(s) of the thread, in key order.
+TlAtom(k) == IF k = "T0" THEN "tl0c" ELSE "tl1c"
+TlExit(t, ins, me) ==
+  LET k == ins.o  x == TlAtom(k) IN
+  IF ob.tl[t][k] # -1 /\ x \in P.atoms
+  THEN IF AtomicStoreRace(me, t, x)
+       THEN Race /\ UNCHANGED <<pc, regs, tv, scv, ob, sub, st>> /\ UnchMem /\ UnchRace
+       ELSE \E i \in Readable(me, x) \cap Insertable(me, x) : RmwAtR(t, me, x, i, mo[x][i].val + 1, "sc", FALSE)
+  ELSE Plain(t, me) /\ NoRet /\ UNCHANGED <<st, ob>>
 \* nested with: key o, inside it key o2; returns the inner key's earlier accesses
 TlNest(t, ins, me) ==
   LET k == ins.o  k2 == ins.o2  c == ob.tl[t][k]  c2 == ob.tl[t][k2] IN
@@ -879,6 +892,7 @@ Do(t, ins, me) ==
     [] ins.op = "tdrop"    -> TDrop(t, ins, me)
     [] ins.op = "tforget"  -> TForget(t, ins, me)
     [] ins.op = "tlwith"   -> TlWith(t, ins, me)
+    [] ins.op = "tlexit"   -> TlExit(t, ins, me)
     [] ins.op = "tlnest"   -> TlNest(t, ins, me)
     [] ins.op = "lzget"    -> LzGet(t, ins, me)
     [] ins.op = "lzread"   -> LzRead(t, ins, me)
